@@ -34,9 +34,17 @@ static uint8_t *base;
 static struct { char mode; size_t size; uint8_t *start; } blk[MAXBLK];
 static int nblk;
 
-static int hn; static struct { char kind; int code; } hlog[64];
-static void str_handler(const char *m, void *p, errno_t e) { (void)m; (void)p; if (hn < 64) { hlog[hn].kind = 'S'; hlog[hn].code = e; } hn++; }
-static void mem_handler(const char *m, void *p, errno_t e) { (void)m; (void)p; if (hn < 64) { hlog[hn].kind = 'M'; hlog[hn].code = e; } hn++; }
+static int hn; static struct { char kind; int code; char watch; } hlog[64];
+/* W<b>:<off>:<len>:<w> : a region (the destination) inspected from inside the handler, i.e. what a handler that does not return
+   leaves behind: Z = every byte zero, F = only the first element zero, D = first element not zero */
+static const unsigned char *watch_p; static size_t watch_len, watch_w;
+static char watch_state(void) {
+    if (!watch_p) return '-';
+    size_t k = 0; while (k < watch_len && watch_p[k] == 0) k++;
+    return k == watch_len ? 'Z' : (k >= watch_w ? 'F' : 'D');
+}
+static void str_handler(const char *m, void *p, errno_t e) { (void)m; (void)p; if (hn < 64) { hlog[hn].kind = 'S'; hlog[hn].code = e; hlog[hn].watch = watch_state(); } hn++; }
+static void mem_handler(const char *m, void *p, errno_t e) { (void)m; (void)p; if (hn < 64) { hlog[hn].kind = 'M'; hlog[hn].code = e; hlog[hn].watch = watch_state(); } hn++; }
 
 #include <ucontext.h>
 #include <stdio_ext.h>
@@ -210,12 +218,13 @@ int main(int argc, char **argv) {
             for (size_t k = 0; k < sz; k++) blk[i].start[k] = (uint8_t)(hexval(hex[2 * k]) * 16 + hexval(hex[2 * k + 1]));
             /* bytes of the mapped pages outside the block: fixed filler (never compared) */
         }
-        sscanf(p, " %d%n", &nargs, &n); p += n; vstart = nargs; al_fail_at = -1; pre_errno = 0;
+        sscanf(p, " %d%n", &nargs, &n); p += n; vstart = nargs; al_fail_at = -1; pre_errno = 0; watch_p = NULL;
         { int ntok = nargs, j = 0;
         for (int t = 0; t < ntok; t++) {
             char tok[64]; sscanf(p, " %63s%n", tok, &n); p += n;
             if (tok[0] == 'K') { al_fail_at = strtol(tok + 1, 0, 10); nargs--; continue; }   /* not an argument */
             if (tok[0] == 'E') { pre_errno = (int)strtol(tok + 1, 0, 10); nargs--; continue; }  /* errno on entry (left over from some earlier call) */
+            if (tok[0] == 'W') { int b; long off; unsigned long ln, w; sscanf(tok + 1, "%d:%ld:%lu:%lu", &b, &off, &ln, &w); watch_p = blk[b].start + off; watch_len = ln; watch_w = w; nargs--; continue; }
             int i = j++;
             args[i].tag = tok[0];
             if (tok[0] == 'N') args[i].u = 0;
@@ -240,6 +249,7 @@ int main(int argc, char **argv) {
         OUT(" h=");
         if (hn == 0) OUT("-");
         for (int i = 0; i < hn && i < 64; i++) OUT("%s%c:%d", i ? "," : "", hlog[i].kind, hlog[i].code);
+        if (watch_p && hn) { OUT(" hw="); for (int i = 0; i < hn && i < 64; i++) OUT("%c", hlog[i].watch); }
         OUT(" fault=");
         if (!fault_sig) OUT("-");
         else {
